@@ -328,6 +328,8 @@ def epoch_boundary(b, rng, keep_hint=()):
     fam = {}
     for n in keep_hint:
         v = b.it.env.get(n)
+        if sum(1 for w in b.it.env.values() if w is v) > 1:
+            continue    # the same object under two names (atleast_kd of a tensor that already has k dimensions returns the tensor itself)
         if isinstance(v, np.ndarray) and v.dtype.kind == "f" and v.size and b.meta[n]["nonconst"] and (v.flags.c_contiguous or v.flags.f_contiguous):
             fam.setdefault(id(root_array(v)), []).append(n)
     survivors = [rng.choice(ns) for ns in fam.values()]
